@@ -30,4 +30,95 @@ def gen():
     wb = F.fn_body(o, "write", "output.rs")
     if not re.search(r'if\s+morphemes\.len\(\)\s*==\s*0\s*\{\s*writer\.write_all\(b"\\n"\)', wb):
         raise F.FactError("Wakachi::write: empty-list case not recognised")
+    out.append(columns(o))
+    return "".join(out)
+
+
+def _bytes(lit):
+    """Rust byte/str literal body -> Coq list N"""
+    b = bytes(lit, "utf-8").decode("unicode_escape").encode("utf-8")
+    return "[" + "; ".join("%d%%N" % x for x in b) + "]"
+
+
+def columns(o):
+    """Column output: order of what write_morpheme_basic / write_morpheme_extended / Simple::write emit, and Simple::subset."""
+    out = []
+    basic = F.fn_body(o, "write_morpheme_basic", "output.rs")
+    toks = []
+    for m in re.finditer(r"writer\.write_all\(\s*([^;]*?)\s*\)\?;", basic):
+        a = m.group(1)
+        mm = re.fullmatch(r'b"((?:[^"\\]|\\.)*)"', a)
+        if mm:
+            toks.append(("lit", mm.group(1)))
+            continue
+        mm = re.fullmatch(r"morpheme\.(\w+)\(\)\.as_bytes\(\)", a)
+        if mm:
+            toks.append(("col", mm.group(1)))
+            continue
+        if a == "pos.as_bytes()":
+            toks.append(("col", "pos_component"))
+            continue
+        raise F.FactError("write_morpheme_basic: unrecognised write_all argument `%s`" % a)
+    if not re.search(r"let\s+all_pos\s*=\s*morpheme\.part_of_speech\(\)\s*;\s*for\s*\(idx,\s*pos\)\s*in\s*all_pos\.iter\(\)\.enumerate\(\)", basic):
+        raise F.FactError("write_morpheme_basic: part-of-speech loop not recognised")
+    g = re.search(r'writer\.write_all\(pos\.as_bytes\(\)\)\?;\s*if\s+([^{]*?)\s*\{\s*writer\.write_all\(b","\)\?;\s*\}', basic)
+    if not g:
+        raise F.FactError("write_morpheme_basic: comma guard not recognised")
+    out.append("(* sudachi-cli/src/output.rs write_morpheme_basic: what is written, in order *)\n")
+    out.append("Definition basic_writes : list (string * list N) := [%s].\n" % "; ".join(
+        '("%s"%%string, %s)' % (("lit", _bytes(v)) if k == "lit" else (v, "[]")) for k, v in toks))
+    out.append('Definition pos_comma_guard : string := "%s".\n' % " ".join(g.group(1).split()))
+    ext = F.fn_body(o, "write_morpheme_extended", "output.rs")
+    w = re.search(r'write!\(\s*writer\s*,\s*"((?:[^"\\]|\\.)*)"\s*,(.*?)\)\?;', ext, flags=re.S)
+    if not w:
+        raise F.FactError("write_morpheme_extended: write! call not recognised")
+    args = [a.strip() for a in w.group(2).split(",") if a.strip()]
+    cols = []
+    for a in args:
+        mm = re.fullmatch(r"morpheme\.(\w+)\(\)", a)
+        if not mm:
+            raise F.FactError("write_morpheme_extended: unrecognised argument `%s`" % a)
+        cols.append(mm.group(1))
+    # the format string split at its placeholders
+    parts = re.split(r"(\{\}|\{:\?\})", w.group(1))
+    out.append("(* write_morpheme_extended: literal pieces and placeholders of the format string, then the arguments *)\n")
+    out.append("Definition extended_format : list (string * list N) := [%s].\n" % "; ".join(
+        ('("%s"%%string, [])' % ("display" if x == "{}" else "debug")) if x in ("{}", "{:?}") else ('("lit"%%string, %s)' % _bytes(x))
+        for x in parts if x != ""))
+    out.append("Definition extended_args : list string := [%s].\n" % "; ".join('"%s"%%string' % c for c in cols))
+    v = re.search(r'if\s+morpheme\.is_oov\(\)\s*\{\s*writer\.write_all\(b"((?:[^"\\]|\\.)*)"\)\?;\s*\}', ext)
+    if not v:
+        raise F.FactError("write_morpheme_extended: (OOV) suffix not recognised")
+    out.append("Definition oov_suffix : list N := %s.\n" % _bytes(v.group(1)))
+    # Simple::write and Simple::subset (the second `fn write` / `fn subset` of the file)
+    si = o.find("for Simple")
+    if si < 0:
+        raise F.FactError("impl SudachiOutput for Simple not found")
+    simple = o[si:]
+    sw = F.fn_body(simple, "write", "output.rs (Simple)")
+    if not re.search(r'for\s+m\s+in\s+morphemes\.iter\(\)\s*\{\s*write_morpheme_basic\(writer,\s*&m\)\?;\s*if\s+self\.print_all\s*\{\s*write_morpheme_extended\(writer,\s*&m\)\?;?\s*\}\s*writer\.write_all\(b"\\n"\)\?;\s*\}\s*writer\.write_all\(b"EOS\\n"\)\?;', sw):
+        raise F.FactError("Simple::write: loop (basic, extended if print_all, newline) + EOS not recognised")
+    out.append("Definition simple_write_shape_ok : bool := true.\n")
+    sb = F.fn_body(simple, "subset", "output.rs (Simple)")
+    b0 = re.search(r"let\s+mut\s+subset\s*=\s*([^;]*);", sb)
+    b1 = re.search(r"if\s+self\.print_all\s*\{\s*subset\s*\|=\s*([^;]*);\s*\}\s*subset\s*$", sb.strip().rstrip("}").strip())
+    if not b0 or not b1:
+        raise F.FactError("Simple::subset not recognised")
+
+    def flags(e):
+        fs = []
+        for x in e.split("|"):
+            mm = re.fullmatch(r"\s*InfoSubset::(\w+)\s*", x)
+            if not mm:
+                raise F.FactError("Simple::subset: unrecognised flag expression `%s`" % x.strip())
+            fs.append(mm.group(1))
+        return fs
+    out.append("Definition subset_basic : list string := [%s].\n" % "; ".join('"%s"%%string' % f for f in flags(b0.group(1))))
+    out.append("Definition subset_all_extra : list string := [%s].\n" % "; ".join('"%s"%%string' % f for f in flags(b1.group(1))))
+    # Wakachi::subset requests nothing
+    wk = o[o.find("for Wakachi"):si]
+    ws = F.fn_body(wk, "subset", "output.rs (Wakachi)")
+    if not re.fullmatch(r"\s*InfoSubset::empty\(\)\s*", ws.strip().strip("{}")):
+        raise F.FactError("Wakachi::subset is no longer empty")
+    out.append("Definition subset_wakati : list string := [].\n")
     return "".join(out)
